@@ -122,3 +122,9 @@ Theorem cbor_decimal_literal : forall s rest, 0 <= dec_to_f64 s < two64 ->
   parse_one (encode (Num (Dec s)) ++ rest) = DOk (Num (Flt (dec_to_f64 s))) rest.
 Proof. exact CborLaws.cbor_decimal. Qed.
 Print Assumptions cbor_decimal_literal.
+
+(** an array that another encoder wrote with indefinite length (0x9f, the items, the break byte) is read as the same array *)
+Theorem cbor_indefinite_array : forall a rest, Forall CborLaws.cb a ->
+  parse_one (zb 159 :: flat_map encode a ++ zb 255 :: rest) = DOk (Arr a) rest.
+Proof. exact CborLaws.indefinite_array. Qed.
+Print Assumptions cbor_indefinite_array.
